@@ -276,8 +276,9 @@ MANIFEST_TEXT["C14"] = {
 }
 
 PROPS["C19"] = {
-    "lean_modules": ["EcModel.Props.C19"],
+    "lean_modules": ["EcModel.Props.C19", "EcModel.Props.C19Impls"],
     "harness": ["c19"],
+    "known_keys_expected": ["c19/impl-tuple-varlen-short-panic"],
     "t1_facts": ["wire layout", "Layouts.lean", "WireMacro.lean"],
     "modelled": "ethercrab-wire-derive: help.rs bit_width_attr; parse_struct.rs parse_struct (width table, pre/post skip, skip, bit_start/"
                 "bit_end/bytes/bit_offset, the three validity errors, total width); generate_struct.rs generate_struct_write/read/"
@@ -285,7 +286,15 @@ PROPS["C19"] = {
                 "get/get_mut length checks); parse_enum.rs parse_enum (discriminant accumulator, alternatives, catch_all, default, "
                 "its five errors); generate_enum.rs write (match arms with catch-all, `as repr` without) and read (first matching "
                 "arm, catch-all / default / InvalidValue); ethercrab-wire lib.rs pack_to_slice / pack_to_slice_unchecked / pack; "
-                "impls.rs u8..u64, i8..i64, f32/f64 (bit patterns), bool, (), [T; N] read, [u8; N] write, tuples",
+                "impls.rs u8..u64, i8..i64, f32/f64 (bit patterns), bool, (), [T; N] read, [u8; N] write, tuples; "
+                "WireImpls.lean, line by line: the chunks_exact / take(N) / map / collect::<Result<heapless::Vec<_, N>, _>> pipeline "
+                "(chunks_exact(0) and heapless' `Vec::from_iter overflow` as panic branches) of the heapless::Vec<T, N> decoder and "
+                "of the [T; N] decoder (buf.get(0..PACKED_LEN*N), into_array -> ArrayLength), heapless::String<N> (from_utf8 as the "
+                "well-formed byte sequences of Unicode table 3-7, try_from as the capacity test; the WHOLE buffer is the string), the "
+                "tuple walk `if buf.len() > 0 { buf = &buf[PACKED_LEN..] }` with its out-of-range slice as a panic branch, the tuple "
+                "pack_to_slice_unchecked (split_at_mut per component, final range index) and pack_to_slice, &[u8], and "
+                "EtherCrabWireSized::buffer()/PACKED_LEN of every hand-written impl ([$ty; N]: Buffer = [u8; N] although "
+                "PACKED_LEN = N * size)",
     "rule": "per run: a corpus of boundary declarations (3-bit field at offset 5 after a skip, 8-bit u8 at offset 0, the implicit-"
             "discriminant witnesses, every macro error kind), then several hundred random struct/enum declarations (1-12 fields, "
             "widths 1-64 bits obeying the macro's alignment rules, pre/post skips in bits and bytes, skip fields, u8..u64/i8..i64/"
@@ -302,8 +311,24 @@ PROPS["C19"] = {
             "run in batches of 700 per compilation; 1/8 of writable structs #[repr(C, packed)], 1/8 of structs and 1/6 of enums "
             "compiled as a Write-only + Read-only pair of derives, types with non-u8 arrays as Read-only derives; 260 (thorough "
             "2500) random mutations of valid declarations + 60 fixed invalid declarations through the macro's parse functions. "
+            "Case family `impl` (own random stream): the REAL hand-written impls heapless::Vec<T, N> (T = u8/u16/u32 mostly, also "
+            "u64/i*/bool/f*/[u8; 2]/enum; N in 0..31), heapless::String<N> (N in 0..32), [T; N] (u8/u16/i32/u64 mostly; N in 0..8; "
+            "also arrays of heapless vectors/strings), tuples of every arity 1..16 over primitives/bools/()/small arrays, tuples "
+            "with one heapless component; ~75 subjects per quick run (37 fixed), ~180 per thorough run. Buffers: empty, one element "
+            "short, exact, one element more than the capacity (with and without a partial tail), 2x, 3x, random lengths up to 3x, "
+            "random / all-00 / all-ff bytes; strings: well-formed UTF-8 of N-1, N, N+1, 2N, 3N bytes, 2/3/4-byte characters cut at "
+            "the capacity, 20 kinds of ill-formed sequences (lone continuation, overlong, surrogate, > U+10FFFF, 5-byte lead, "
+            "truncated) inside well-formed text, the extreme well-formed sequences of each length, random bytes; `buflen` "
+            "(buffer().len() and PACKED_LEN) for every sized subject; tuples and arrays also through pack_to_slice / "
+            "pack_to_slice_unchecked into short/exact/long destinations. Every call runs under catch_unwind. Monitors (independent "
+            "of the model): c19/impl-panic (never a panic), c19/impl-decode (the answer is what the declared element layout says: "
+            "the complete elements present, at most N, little-endian, back to back; the whole buffer as a string iff it is "
+            "well-formed UTF-8 of at most N bytes, checked by decoding scalar values; the first N array elements or "
+            "ReadBufferTooShort; tuple components at consecutive offsets), c19/impl-packed-len, c19/impl-buffer-len, and the known "
+            "class c19/impl-tuple-varlen-short-panic. "
             "non-trivial = value-level case whose subject is a struct with >= 2 non-skipped fields of which at least one does "
-            "not start or end on a byte boundary, or an enum with alternatives/catch-all/default; distinct = distinct case line",
+            "not start or end on a byte boundary, or an enum with alternatives/catch-all/default, or an `impl` family case on a "
+            "vector/string/array/tuple whose buffer length differs from the packed length; distinct = distinct case line",
     "assumptions": [
         "field widths >= 1 bit (the property's quantifier; `bits = 0` fields are accepted by the macro and are degenerate)",
         "field types obey the trait laws (Lawful: proved for u8..u64, i8..i64, bool and closed under struct nesting) and are not "
@@ -313,6 +338,11 @@ PROPS["C19"] = {
         "for the discriminants; enum_roundtrip_needs_distinct_arms shows the hypothesis is needed) and in range of the repr, "
         "and for canonical catch-all payloads",
         "buffers are byte strings (every element < 256)",
+        "hand-written impls: element types are not zero-sized (heapless::Vec<(), N> and [(); N] panic in chunks_exact(0) for "
+        "every buffer: heapless_vec_zero_size_panics, array_zero_size_panics) and their own decoders do not panic; the tuple "
+        "theorems assume lawful components (tuple_unpack_total_counterexample: a heapless::Vec / heapless::String component "
+        "breaks it, known finding c19/impl-tuple-varlen-short-panic); N * PACKED_LEN fits in usize; core::str::from_utf8 accepts "
+        "exactly the well-formed sequences of the Unicode standard (validated by the differential run only)",
     ],
 }
 
@@ -331,12 +361,34 @@ MANIFEST_TEXT["C19"] = {
             "alternatives advanced the counter) is fixed; its witnesses now round-trip (implicit_discriminants_roundtrip_witness, "
             "implicit_after_alternatives_witness) and stay in the harness corpus. T1: every derived struct/enum of /repo/src is "
             "re-extracted each run; layouts_accepted, layouts_well_formed, layouts_enums_explicit, in_crate_types_lawful are "
-            "re-decided on them.",
+            "re-decided on them. Hand-written impls of impls.rs (Props/C19Impls.lean), for EVERY buffer (any length, any bytes) "
+            "and EVERY N: heapless_vec_unpack_total (no panic branch of the chunks_exact/take/collect pipeline is reachable for "
+            "elements of non-zero size), heapless_vec_unpack_prefix / _elements / _prims (>= N*size bytes: exactly the first N "
+            "elements; fewer: the complete elements present; element i is the little-endian value of bytes [i*size, i*size+size)), "
+            "heapless_vec_no_take_counterexample (the same pipeline without .take(N) panics with `Vec::from_iter overflow` for "
+            "every N as soon as N+1 elements are present), heapless_vec_zero_size_panics; heapless_string_unpack (never a panic; "
+            "ill-formed -> InvalidUtf8; well-formed and longer than N -> ArrayLength; otherwise the string holding exactly the "
+            "buffer), heapless_string_roundtrip (the encoding of ANY sequence of Unicode scalar values is accepted), "
+            "heapless_string_cut_code_point; array_unpack_exact (fewer than N*size bytes -> ReadBufferTooShort, else the first N "
+            "elements, never a panic), array_impl_is_codec_array (the line-by-line decoder IS the Codec.array of the struct "
+            "theorems, so into_array never fails), array_length_error_unreachable, array_roundtrip; tuple_unpack_fields "
+            "(component i is decoded from offset PACKED_LEN_0+..+PACKED_LEN_{i-1}), tuple_unpack_short_error, tuple_unpack_total, "
+            "tuple_pack_fields (pack_to_slice_unchecked / pack_to_slice store component i's encoding at that offset and leave the "
+            "rest of the destination alone), tuple_pack_is_codec_tuple, tuple_pack_short (WriteBufferTooShort / the contractual "
+            "panic), tuple_roundtrip; unit_and_bool_impls, slice_u8_pack; buffer_sizes and array_buffer_shorter_counterexample "
+            "([$ty; N]::buffer() has N bytes for PACKED_LEN = N*size, so a wide array can never be unpacked from its own buffer: "
+            "the cause of c15/word-array-buffer). Counterexamples kept visible: tuple_unpack_total_counterexample "
+            "(<(heapless::Vec<u8, 4>, u8)>::unpack_from_slice(&[1, 2]) and <(heapless::String<4>, u8)>::unpack_from_slice(b\"ab\") "
+            "panic: known finding c19/impl-tuple-varlen-short-panic, replayed from the corpus on every run), "
+            "tuple_after_string_never_decodes.",
     "note": "Trusted: Lean kernel; hand translation of the macro's parse/generate code and of impls.rs (validated by compiling "
             "hundreds of generated declarations with the real macro per run and diffing every answer, plus accept/reject agreement "
             "on invalid declarations through the macro's own parse functions); rustc's own checks (types, literal ranges) are "
-            "outside the model. Partial: zero-width fields, arrays of zero-sized elements (chunks_exact(0) panics), hand-written "
-            "impls inside derived structs (bitflags wrappers, PduFlags) are opaque.",
+            "outside the model. Partial: zero-width fields, arrays and heapless vectors of zero-sized elements (chunks_exact(0) "
+            "panics), hand-written impls inside derived structs (bitflags wrappers, PduFlags) are opaque; tuples with a "
+            "heapless::Vec / heapless::String component panic on short buffers (known finding, not repaired: no in-crate type is "
+            "such a tuple); heapless' and core's own code (push, try_from, from_utf8, chunks_exact) is modelled by its documented "
+            "behaviour and tied by the differential run (the `impl` case family calls the real impls under catch_unwind).",
     "technique": "Lean 4 proof (bit-level invariant of the generated write loop, extensionality on bits) + differential correspondence "
                  "on freshly generated programs compiled with the real proc-macro",
 }
